@@ -1,7 +1,7 @@
 (* Syntax/SerializerML.v — property C04 for MULTI-LINE patterns: the serializer prints a parser output (one
    text element per line) in the canonical multi-line layout, which RoundTripML.v parses back.
 
-   The fragment `sml_resource`: trees whose patterns JOIN to a pattern of RoundTripML.ml_pattern and whose
+   The fragment `sml_resource`: trees whose patterns JOIN to a pattern of RoundTripML.wl_pattern and whose
    text elements are not empty and have a line feed only as their last byte (what the parser returns).
      1. the canonical text of a pattern (jtext) is one of its layouts
      2. what the serializer writes for the split elements (stext), and stext = jtext of the joined elements
@@ -16,10 +16,10 @@ From Coq Require Import Lia.
 Arguments N.eqb : simpl never.
 
 (* the classes of RoundTripML.v at depth 0: placeables hold a simple inline expression *)
-Local Notation ml_pattern := (RoundTripML.ml_pattern eoks).
+Local Notation ml_pattern := (RoundTripML.wl_pattern eoks).
 Local Notation ml_elements := (RoundTripML.ml_elements eoks).
 Local Notation ml_line_layout := (RoundTripML.ml_line_layout etexts).
-Local Notation ml_value_layout := (RoundTripML.ml_value_layout etexts).
+Local Notation ml_value_layout := (RoundTripML.wl_value_layout etexts).
 Local Notation ml_resource := (RoundTripML.ml_resource eoks).
 Local Notation text_ok := (RoundTripML.text_ok (goodd 0)).
 Local Notation srel := (RoundTripML.srel (goodd 0)).
@@ -311,10 +311,33 @@ Definition text_okb (el : pattern_element) : bool :=
   | PlaceableElement _ => true
   end.
 
-(* a pattern as the parser returns it: it joins to a pattern of RoundTripML.ml_pattern; no text element is
+(* the serializer writes a value in block form exactly if it may and the value has several lines: so a value that
+   it writes inline, with several lines, has a continuation line at indentation 0 (class wl_pattern) *)
+Lemma first_ok_leading_dot p : first_byte_ok_for_block p = negb (has_leading_text_dot p).
+Proof. unfold first_byte_ok_for_block, has_leading_text_dot. destruct (pattern_elements p) as [|[[|b t]|e] r]; reflexivity. Qed.
+
+Lemma not_multiline_no_lf els : is_multiline (Pattern els) = false -> has_lf els = false.
+Proof.
+  unfold is_multiline, has_lf. cbn [pattern_elements]. induction els as [|el r IH]; [reflexivity|]. cbn [existsb].
+  intros H. apply orb_false_elim in H as [H1 H2]. rewrite (IH H2), orb_false_r. destruct el; [exact H1 | reflexivity].
+Qed.
+
+Lemma wl_inline_hit eok J : wl_pattern eok (Pattern J) = true -> starts_on_new_line (Pattern J) = false ->
+  ml_first_ok J = true /\ (has_lf J = false \/ existsb (Nat.eqb 0) (own_indents J) = true).
+Proof.
+  intros Hp Est. unfold starts_on_new_line in Est. rewrite <- first_ok_leading_dot in Est.
+  destruct (wl_pattern_parts eok J Hp) as (_ & _ & _ & _ & [[Hf [H | [H | Hok]]] | (Hsp & _ & Hhit)]).
+  - split; [exact Hf | left; exact H].
+  - split; [exact Hf | right; exact H].
+  - split; [exact Hf|]. rewrite Hok in Est. cbn [andb] in Est. left. apply not_multiline_no_lf, Est.
+  - exfalso. rewrite (first_sp_block_ok J Hsp) in Est. cbn [andb] in Est.
+    rewrite (own_indents_no_lf J (not_multiline_no_lf J Est)) in Hhit. discriminate Hhit.
+Qed.
+
+(* a pattern as the parser returns it: it joins to a pattern of RoundTripML.wl_pattern; no text element is
    empty, and a line feed is the last byte of its text element *)
 Definition sml_pok (els : list pattern_element) : bool :=
-  ml_pattern (Pattern (join_elements els)) && forallb text_okb els.
+  wl_pattern eoks (Pattern (join_elements els)) && forallb text_okb els.
 Definition sml_pattern (p : pattern) : bool := match p with Pattern els => sml_pok els end.
 Definition sml_resource (t : resource) : bool := g_resource sml_pok t.
 
@@ -409,7 +432,7 @@ Lemma sml_pok_parts els : sml_pok els = true ->
 Proof.
   unfold sml_pok. intros H. apply andb_prop in H as [Hp Hok]. apply forallb_text_okb in Hok.
   split; [exact Hp | split; [exact Hok|]].
-  destruct (ml_pattern_parts eoks _ Hp) as (_ & Hs & _).
+  destruct (wl_pattern_parts eoks _ Hp) as (_ & Hs & _).
   apply (split_of_stream els (join_elements els) Hs (eq_sym (stream_join els)) Hok).
 Qed.
 
@@ -457,7 +480,7 @@ Qed.
 
 Lemma sml_pok_final els : sml_pok els = true -> els <> [] /\ no_final_lf els.
 Proof.
-  intros H. destruct (sml_pok_parts els H) as (Hp & Hok & _). destruct (ml_pattern_parts eoks _ Hp) as (Hne & _ & _ & Hl & _).
+  intros H. destruct (sml_pok_parts els H) as (Hp & Hok & _). destruct (wl_pattern_parts eoks _ Hp) as (Hne & _ & _ & Hl & _).
   split; [intros ->; apply Hne; reflexivity|].
   apply no_final_lf_join; [apply (Forall_impl _ (text_ok_nonempty (goodd 0)) Hok) | apply ml_last_ok_no_final_lf, Hl].
 Qed.
@@ -522,16 +545,16 @@ Definition sml_vlay (els : list pattern_element) (V : bytes) : Prop := ml_value_
 
 Lemma sml_ptext_layout k els : sml_pok els = true -> k <= 1 -> sml_vlay els (sml_ptext k els).
 Proof.
-  intros Hp _. destruct (sml_pok_parts els Hp) as (Hml & _). destruct (ml_pattern_parts eoks _ Hml) as (_ & Hs & _).
+  intros Hp _. destruct (sml_pok_parts els Hp) as (Hml & _). destruct (wl_pattern_parts eoks _ Hml) as (_ & Hs & _).
   unfold sml_vlay, sml_ptext. set (J := join_elements els) in *. set (B := 4 * S k).
   pose proof (jtext_layout B J false Hs) as HL.
   destruct (starts_on_new_line (Pattern J)) eqn:Est.
   - change (10%N :: sp B ++ jtext B J) with (sp 0 ++ lf ++ [] ++ sp B ++ jtext B J).
-    apply (mvl_block etexts J 0 lf 0 [] B (jtext B J)); [|left; reflexivity | constructor | unfold B; lia | exact HL].
+    apply (wvl_block etexts J 0 lf 0 [] B (jtext B J)); [|left; reflexivity | constructor | unfold B; lia | exact HL].
     unfold starts_on_new_line in Est. apply andb_prop in Est as [Hd _].
     unfold has_leading_text_dot in Hd. unfold first_byte_ok_for_block. cbn [pattern_elements] in *.
     destruct J as [|[[|b t]|e] r]; try reflexivity. exact Hd.
-  - change (32%N :: jtext B J) with (sp 1 ++ jtext B J). apply (mvl_inline etexts J 1 B (jtext B J)); [unfold B; lia | exact HL].
+  - change (32%N :: jtext B J) with (sp 1 ++ jtext B J). apply (wvl_inline etexts J 1 B (jtext B J) (proj1 (wl_inline_hit eoks J Hml Est)) (proj2 (wl_inline_hit eoks J Hml Est))); [unfold B; lia | exact HL].
 Qed.
 
 (* ---------------------------------------------------------------------------------------------- *)
@@ -547,7 +570,7 @@ Qed.
 
 Lemma rel2_split els'' els : rel2 els'' els -> sml_pok els = true -> Forall split_el els''.
 Proof.
-  intros [Hst Hok''] Hp. destruct (sml_pok_parts els Hp) as (Hml & _). destruct (ml_pattern_parts eoks _ Hml) as (_ & Hs & _).
+  intros [Hst Hok''] Hp. destruct (sml_pok_parts els Hp) as (Hml & _). destruct (wl_pattern_parts eoks _ Hml) as (_ & Hs & _).
   apply (split_of_stream els'' (join_elements els) Hs); [rewrite Hst; symmetry; apply stream_join | exact Hok''].
 Qed.
 
@@ -584,13 +607,13 @@ Lemma sml_get_pattern bs els V T used c nx p n :
   exists els', get_pattern bs n p = Ok (Some (Pattern els')) (used + (length V + p)) /\ rel2 els' els.
 Proof.
   intros Hp HV HT H Hn. destruct (sml_pok_parts els Hp) as (Hml & _). pose proof render_facts as R. pose proof join_facts as J. pose proof place_facts as P.
-  destruct (get_pattern_ml eoks etexts (goodd 0) R J P bs (join_elements els) V T used c nx p n Hml HV HT H Hn) as (els' & E & _ & Hok & Hst).
+  destruct (get_pattern_wl eoks etexts (goodd 0) R J P bs (join_elements els) V T used c nx p n Hml HV HT H Hn) as (els' & E & _ & Hok & Hst).
   exists els'. split; [exact E|]. split; [rewrite Hst; apply stream_join | exact Hok].
 Qed.
 
 Lemma sml_strip els V : sml_pok els = true -> sml_vlay els V ->
   exists k V0, V = sp k ++ V0 /\ sml_vlay els (sp 0 ++ V0) /\ forall T, head_not is_space (V0 ++ T).
-Proof. intros Hp HV. destruct (sml_pok_parts els Hp) as (Hml & _). apply (ml_value_layout_strip eoks etexts _ V Hml HV). Qed.
+Proof. intros Hp HV. destruct (sml_pok_parts els Hp) as (Hml & _). apply (wl_value_layout_strip eoks etexts _ V Hml HV). Qed.
 
 Definition sml_resource_text (t : resource) : bytes := g_resource_text sml_ptext t.
 
@@ -618,7 +641,7 @@ Qed.
 (* the fragment contains what the parser returns for every layout of a tree of RoundTripML.ml_resource *)
 Lemma srel_sml_pok els' els : srel els' els -> ml_pattern (Pattern els) = true -> sml_pok els' = true.
 Proof.
-  intros (Hj & Hok & Hst) Hp. destruct (ml_pattern_parts eoks els Hp) as (_ & Hs & _).
+  intros (Hj & Hok & Hst) Hp. destruct (wl_pattern_parts eoks els Hp) as (_ & Hs & _).
   pose proof (split_of_stream els' els Hs Hst Hok) as Hsp.
   unfold jrel in Hj. rewrite (split_join_pattern els' Hsp) in Hj. injection Hj as Hj.
   unfold sml_pok. rewrite Hj, Hp. apply forallb_text_okb, Hok.
@@ -666,5 +689,5 @@ Proof.
   assert (Hsi : forall i, simple_inline i = true -> eoks (Inline i) = true) by (intros i Hi; exact Hi).
   intros els Hp. pose proof (simple_pattern_ml eoks Hsi _ Hp) as Hml. destruct (simple_pattern_parts els Hp) as (_ & Hs & _).
   destruct (simple_elements_ml eoks Hsi els false Hs) as [Hmle _].
-  unfold sml_pok. rewrite (ml_elements_join eoks join_facts els false Hmle), Hml. apply forallb_text_okb, (simple_elements_text_ok els false Hs).
+  unfold sml_pok. rewrite (ml_elements_join eoks join_facts els false Hmle), (ml_wl_pattern eoks _ Hml). apply forallb_text_okb, (simple_elements_text_ok els false Hs).
 Qed.
